@@ -120,6 +120,9 @@ def run(tier, seed, mutant=None, only_validate=False):
             for c in (("future", "sync") if tier == "quick" else ("future", "coro", "sync")):
                 cfgs.append({"kind": "partition", "n": n, "timeout": to or None, "mod": mod if mod > 1 else None,
                              "cons": [c], "max_elems": ne})
+        # falsy payloads (None, 0) are elements like any other
+        cfgs.append({"kind": "partition", "n": 2, "timeout": 2, "mod": None, "cons": ["future"], "max_elems": ne,
+                     "falsy": {"none": 2, "zero": 3}})
         amod.node_engine(res, work, node="partition", trace_module="AsyncPartitionTrace", cfgs=cfgs, consts_of=consts_of,
                          adapt=adapt, attribute=attribute, seed=seed, depth=7 if tier == "quick" else 9,
                          limit=150 if tier == "quick" else 1500, nrandom=150 if tier == "quick" else 1500,
